@@ -88,7 +88,7 @@ var profiles = map[string]profile{
 	"C01": {types: []string{"int", "string", "float64", "[]int", "any"}, setup: []string{"NewSlice", "FromArray", "MakeEmpty", "MakeArr"}, ops: listOps, minLen: 4, maxLen: 40},
 	"C02": {types: []string{"int", "string", "[]int", "any", "setint", "int", "[][]int"}, setup: []string{"NewSlice", "MakeSetColl", "MakeEmpty"}, ops: setOps, minLen: 4, maxLen: 60},
 	"C03": {types: []string{"string", "int", "rune", "float64", "any", "*PK"}, setup: []string{"MakeEmptyA", "NewASlice", "NewSlice"}, ops: catalogOps, minLen: 4, maxLen: 50},
-	"C09": {types: []string{"int", "string", "any", "int"}, setup: []string{"NewSlice", "FromArray"}, ops: sortOps, minLen: 3, maxLen: 25},
+	"C09": {types: []string{"int", "string", "any", "int", "any"}, setup: []string{"NewSlice", "FromArray"}, ops: sortOps, minLen: 3, maxLen: 25},
 	"C13": {types: []string{"int", "string", "any"}, setup: []string{"NewSlice", "MakeCap", "MakeEmpty"}, ops: stackOps, minLen: 4, maxLen: 60},
 	"C14": {types: []string{"string", "int", "rune", "any"}, setup: []string{"MakeEmptyA", "NewASlice", "NewGoMap", "NewSlice"}, ops: mapOps, minLen: 4, maxLen: 50},
 	"C15": {types: []string{"int", "string", "[]int", "any", "setint", "[][]int"}, setup: []string{"NewSlice", "NewSlice", "FromArray", "FromArray"}, ops: setAlgebraOps, minLen: 4, maxLen: 25},
@@ -336,8 +336,27 @@ func makeDoer(typ string, r *rng, hashableOnly bool) opDoer {
 		if !hashableOnly {
 			x.genShallow, x.genDeep = shallowAny, deepAny
 		}
+		x.tiedVal = genTied
+		if r.chance(1, 2) {
+			// values:tied — four values in five (and the keys) come from the small domain of rank-equal distinct values
+			x.tied = true
+			gv, gk := x.genv, x.genk
+			x.genv = func(r *rng) any {
+				if r.chance(4, 5) {
+					return genTied(r)
+				}
+				return gv(r)
+			}
+			x.genk = func(r *rng) any {
+				if r.chance(4, 5) {
+					return genTied(r)
+				}
+				return gk(r)
+			}
+		}
 	case *assocRunner[*PK]:
 		x.outer, x.assocMacro = x, x.macro
+		x.tiedVal = genPKKey // distinct pointers to equal structs rank Equal and are different map keys
 	case *plainRunner[[]int]:
 		x.outer = x
 	case *plainRunner[[][]int]:
@@ -537,7 +556,7 @@ func genPool(prop string, seed uint64, tier string, outDir string, count int) er
 		"mode_cases":      modeCases,
 		"macro_instances": modeSteps,
 		"case_modes":      caseModes,
-		"modes":           "obs:* = observation policy of the case (full: every object after every step through AsArray; fullmix: every object, view drawn per object and step among AsArray / iterator walk / index-or-key walk; sampled: each collection or iterator with probability 1/3 per step; delayed: none for 2..7 steps, then all; created objects and caller-owned Go arrays / maps are always observed; a final step observes everything). macro:* = number of cases that ran the macro at least once (macro_instances: how often): requery (the identical call again after 0..2 mutations of its receiver), aliasprobe (appends at the end of a product and of its operand after any call that returns a new object), ascbuild (collections built in ascending order, sizes that are not growth points), nilcall (a class function with a nil operand, then the same function again), limcall (class functions over a Set whose collator has a small maximum depth and nested values), bulkkeys (key sequences of length = size, size±1 with duplicates and absent keys in every position), assocwrite (SetValue on an association object handed out by AsArray, then the collection is read again), sortslice (sorter instances kept for the history sorting the caller's arrays of length 15..129)",
+		"modes":           "values:tied = the case's `any` values and keys come mostly from a small domain in which distinct Go values rank Equal (the same number as int / int8 / int16 / int64, as uint / uint16 / uint32 / uint64, as float32 / float64); tiedvalues = macro: Sets built by MakeFromArray / MakeFromSequence from such inputs beside the same values added one by one, searches for tied values, Catalogs with tied keys then SortValues / SortValuesWithRanker / ReverseValues. obs:* = observation policy of the case (full: every object after every step through AsArray; fullmix: every object, view drawn per object and step among AsArray / iterator walk / index-or-key walk; sampled: each collection or iterator with probability 1/3 per step; delayed: none for 2..7 steps, then all; created objects and caller-owned Go arrays / maps are always observed; a final step observes everything). macro:* = number of cases that ran the macro at least once (macro_instances: how often): requery (the identical call again after 0..2 mutations of its receiver), aliasprobe (appends at the end of a product and of its operand after any call that returns a new object), ascbuild (collections built in ascending order, sizes that are not growth points), nilcall (a class function with a nil operand, then the same function again), limcall (class functions over a Set whose collator has a small maximum depth and nested values), bulkkeys (key sequences of length = size, size±1 with duplicates and absent keys in every position), assocwrite (SetValue on an association object handed out by AsArray, then the collection is read again), sortslice (sorter instances kept for the history sorting the caller's arrays of length 15..129)",
 	}
 	meta.Rule = "histories are generated op by op from the seeded PRNG against the live pool (boundary-biased sizes, indices, slots; receiver-aliased operands); a history counts as distinct and non-trivial when it has at least 3 ops and its op/result trace differs from every other history of the run"
 	for i := 0; i < 3 && i < len(all); i++ {
